@@ -168,8 +168,8 @@ class PitRun:
             name = self.int_name(t)
             kw = dict(can_be_prefix=bool(t['cbp']), lifetime=t['life'] * TICK_MS, nonce=0x01020304)
             if t['life'] == DEFAULT_LIFE:
-                # the lifetime is not given: the default of 4000 ms applies (appv2 also without an InterestLifetime element)
-                if self.front == 'v2' and e % 3 == 0:
+                # the lifetime is not given: the default of 4000 ms applies, also without an InterestLifetime element
+                if e % 3 == 0:
                     kw['lifetime'] = None
                 else:
                     del kw['lifetime']
